@@ -329,7 +329,15 @@ def _check(p, t):
     except Reject as e:
         exp = ('rej', e.is_type)
     except TypeError:
-        return True                    # incomparable M operands: outside the claim
+        # incomparable M operands: WHICH error rejects is outside the claim -- but matches() and verify() still have to agree
+        # with each other: verify() raising means matches() returns False (it never raises itself)
+        spec = Match(rp)
+        v = run(lambda: spec.verify(t))
+        m = run(lambda: spec.matches(t))
+        reach('incomparable')
+        if v.kind == 'ok':
+            return (m.kind == 'ok' and m.value is True) or fail(why='verify() accepts but matches() does not return True', v=v, m=m)
+        return (m.kind == 'ok' and m.value is False) or fail(why='verify() rejects but matches() does not return False', v=v, m=m, pattern=rp, t=t)
     spec = Match(rp)
     got = run(lambda: glom(t, spec, glom_debug=True))
     if isinstance(t, (list, dict, set)) and t != snap:
@@ -464,6 +472,12 @@ def obligations(tier):
             for d in (1, 4, 6):
                 obs.append(Ob(match2, fixed={'c': c, 'd': d, 'e': 3}, pre='(a == 2 or a == 5 or a == 1) and (b == 3 or b == 0) and ' + tpre,
                               name='match2_c%d_d%d' % (c, d), timeout=120))
+        # an outer dict pattern WITHOUT defaults of its own around an inner one that fills a default in: the filled-in copy
+        # belongs to the result, the caller's (nested) target stays as it was
+        for c in (7, 9):
+            for d in (6, 16):
+                obs.append(Ob(match2, fixed={'c': c, 'd': d}, pre='(a == 2 or a == 4) and (b == 3 or b == 2) and (e == 3 or e == 4) and (tk == 21 or tk == 12 or tk == 13 or tk == 20)',
+                              name='match2_c%d_d%d' % (c, d), timeout=120))
     else:
         for c in range(NCOMP):
             for d in range(NCOMP):
@@ -477,6 +491,7 @@ def obligations(tier):
                                   name='match2b_c%d_d%d_f%d' % (c, d, f)))
     obs.append(Ob(match_atom, fixed={'a': 5}, pre='0 <= tk < %d' % NTGT, twin='conforms', name='match_atom_5'))
     obs.append(Ob(match_atom, fixed={'a': 5}, pre='0 <= tk < %d' % NTGT, twin='rejects', name='match_atom_5'))
+    obs.append(Ob(match_atom, fixed={'a': 5}, pre='0 <= tk < %d' % NTGT, twin='incomparable', name='match_atom_5'))
     obs.append(Ob(match1, fixed={'c': 6, 'a': 2}, pre='0 <= b < %d and 0 <= tk < %d' % (NATOM, NTGT), twin='default_filled', name='match1_c6_a2'))
     obs.append(Ob(match1, fixed={'c': 6, 'a': 2}, pre='0 <= b < %d and 0 <= tk < %d' % (NATOM, NTGT), twin='type_reject', name='match1_c6_a2'))
     obs.append(Ob(match2, fixed={'c': 6, 'd': 1, 'e': 3}, pre='(a == 2 or a == 5 or a == 1) and (b == 3 or b == 0) and ' + tpre, twin='conforms', name='match2_c6_d1'))
